@@ -304,6 +304,7 @@ def run_phase(tmp, ph, pi, store="dir"):
     kw = dict(show_progress=show)
     kw["logger"] = None if ph.get("logging") else False
     given_log = None
+    logs_before = set(glob.glob(os.path.join(tmp, "*.log")))
     if ph.get("logging") and opts.get("logger") == "given":
         from scitrack import CachingLogger
 
@@ -320,7 +321,6 @@ def run_phase(tmp, ph, pi, store="dir"):
         C.PAR.as_completed = permuting(ph["sched"])
         kw.update(parallel=True)
     out = dict(singles=singles, asc=asc)
-    logs_before = set(glob.glob(os.path.join(tmp, "*.log")))
     try:
         with contextlib.redirect_stdout(sink):
             res = app.apply_to(inputs, **kw)
